@@ -393,6 +393,7 @@ def run_world(spec, argv, child_hook=None, warnings=None, probe=True,
         sys.stdin = stdin
     runner = None
     t0 = _real_time.time()
+    saved_cwd = os.getcwd()
     try:
         try:
             kw = dict(runner_kw or {})
@@ -406,6 +407,7 @@ def run_world(spec, argv, child_hook=None, warnings=None, probe=True,
             res.escaped_tb = traceback.format_exc()[-3000:]
     finally:
         res.streams_after = (sys.stdout is out, sys.stderr is err)
+        os.chdir(saved_cwd)
         sys.stdout, sys.stderr, sys.stdin = saved_streams
         if want_state:
             res.state_after = global_state()
